@@ -194,8 +194,8 @@ class Exec(SpecMixin, ExprMixin, CallMixin, BuiltinMixin, StmtMixin, EventMixin)
         ty = ANY
       v = ops.fresh_val(ty, p, st)
       st.env[p] = v
-      if isinstance(v, VRef) and ty.kind in ('set', 'dict', 'list', 'obj', 'vtuple'):
-        st.assume(st.heap.alloc(v.t))
+      if isinstance(v, VRef):
+        st.assume(st.heap.alloc(v.t))        # whatever is passed in exists at entry
     for gname, gty in c.ghost.items():
       if gname in ('params', 'defaults'):
         continue
